@@ -393,7 +393,32 @@ def spec_traits(spec, node, env0, rng):
     ops = geo.spec_ops(spec)
     tr = {"has_union": "union" in ops, "has_cut": "cut" in ops, "has_isect": "isect" in ops, "has_polygon": "polygon" in ops,
           "has_product": "product" in ops, "overlapping_union": False,
-          "has_bool": bool({"union", "cut", "isect"} & set(ops)), "union_weights_inexact": False}
+          "has_bool": bool({"union", "cut", "isect"} & set(ops)), "union_weights_inexact": False,
+          "boundary_weights_inexact": False}
+
+    def mc(n, pred):
+        box = geo._hull_box(n, env0, 1)[0]
+        P = box[0::2] + rng.random((20000, len(box) // 2)) * (box[1::2] - box[0::2])
+        e = {pn: np.repeat(v, len(P), 0) for pn, v in env0.items()}
+        return pred(n.a.phi(P, e) <= 0, n.b.phi(P, e) <= 0).mean()
+
+    def exact_b(n):
+        """the library's boundary volume of n (sum of the operands' boundary volumes) is the true boundary measure"""
+        if isinstance(n, geo.Moved):
+            return exact_b(n.d)
+        if isinstance(n, geo.Bool):
+            if n.op == "union":
+                rel = mc(n, lambda ia, ib: ia & ib) <= 0
+            elif n.op == "cut":
+                u = geo.Bool.__new__(geo.Bool)
+                u.op, u.a, u.b, u.flag = "union", n.a, n.b, False
+                rel = mc(u, lambda ia, ib: ib & ~ia) <= 0
+            else:
+                rel = False
+            return bool(rel) and exact_b(n.a) and exact_b(n.b)
+        if isinstance(n, (geo.Product, geo.Boundary)):
+            return False
+        return True
 
     def walk(n):
         if isinstance(n, geo.Bool):
@@ -406,6 +431,8 @@ def spec_traits(spec, node, env0, rng):
                 if ((n.a.phi(P, e) <= 0) & (n.b.phi(P, e) <= 0)).mean() > 1e-4:
                     tr["overlapping_union"] = True
                     tr["union_weights_inexact"] = True
+            if not (exact_b(n.a) and exact_b(n.b)):
+                tr["boundary_weights_inexact"] = True   # proposals are split by estimated operand boundary measures
             walk(n.a)
             walk(n.b)
         elif isinstance(n, (geo.Moved, geo.Boundary)):
